@@ -630,10 +630,8 @@ Definition frame_out (f : Frame) : list Z :=
 Definition do_transmit (maxb : Z) (s : State) : R :=
   let fuel := (Z.to_nat (Z.min maxb 65536) + length s.(pendq) + 1)%nat in
   let '(s', buf, fs, okf) := tx_loop fuel maxb 0 s [] in
-  if okf then
-    ok (set_log (s'.(log) ++ map (@Some Frame) fs) s')
-       ([Z.of_nat (length fs); buf] ++ flat_map frame_out fs)
-  else ok s' [-3].
+  ok (set_log (s'.(log) ++ map (@Some Frame) fs) s')
+     (if okf then [Z.of_nat (length fs); buf] ++ flat_map frame_out fs else [-3]).
 
 (** [poll]: connection-blocked streams first (while credit is available), then queued events. *)
 Fixpoint cb_loop (st : list Z) (s : State) : State * option Z :=
